@@ -143,7 +143,7 @@ def decode_template(bs):
     return out
 
 
-def display_table(ctx, impl_path):
+def display_table(ctx, impl_path, _depth=0):
     """{variant index: [pieces...]} literal pieces and argument kinds written by a Display impl, per top-level variant."""
     f = ctx.facts
     b = f.bodies.get(impl_path)
@@ -191,6 +191,16 @@ def display_table(ctx, impl_path):
     # a failed write returns early (`?`): what was written up to there is a proper prefix of a complete rendering, not a rendering
     for key, alts in table.items():
         table[key] = [a for a in alts if not any(a != o and len(a) < len(o) and o[:len(a)] == a for o in alts)]
+    if not table and _depth < 2:
+        # the impl only hands (self, f) to a crate-local helper: its table is the helper's
+        from mir import callee_name
+        for _bb, t_ in b.calls():
+            cn = callee_name(t_)
+            hb = f.bodies.get(cn)
+            if hb is not None and hb.argc == 2 and 'Formatter' in str(hb.local_ty(2).get('s', '')) and cn != impl_path:
+                sub = display_table(ctx, cn, _depth + 1)
+                if sub:
+                    return sub
     return table
 
 
@@ -457,6 +467,18 @@ def r09_4(ctx, run, rule, roots):
 UNREC = {}
 
 
+def _unchecked(t):
+    """rewrite `(a.checked_add(b) as Some).0` as a + b (the Some case is the sum) so that cursor arithmetic written with checked operations
+    is read like the plain form"""
+    if not isinstance(t, tuple) or not t:
+        return t
+    if t[0] == 'field' and isinstance(t[1], tuple) and t[1] and t[1][0] == 'downcast' and t[1][2] == 'Some':
+        c = deref_all(t[1][1])
+        if c[0] == 'call' and canon(c[1]).split('::')[-1] in ('checked_add', 'checked_sub') and len(c[2]) == 2:
+            return ('bin', 'Add' if canon(c[1]).endswith('checked_add') else 'Sub', _unchecked(c[2][0]), _unchecked(c[2][1]))
+    return tuple(_unchecked(x) if isinstance(x, tuple) and x and isinstance(x[0], str) else x for x in t)
+
+
 def scanner_widths(ctx):
     """Widths (bytes skipped from the backslash) per escape form in the pass-1 scanners."""
     f = ctx.facts
@@ -472,8 +494,12 @@ def scanner_widths(ctx):
                     if k[0] == 'M':
                         endv = v
                 if endv is not None:
-                    l = lin(endv)
-                    ws.add(l[1])
+                    l = lin(_unchecked(endv))
+                    # the new cursor must be the old one plus a constant; anything else (a helper's result, a computed width) is not a width this rule reads
+                    if len(l[0]) == 1 and list(l[0].values()) == [1] and isinstance(l[1], int):
+                        ws.add(l[1])
+                    else:
+                        UNREC.setdefault('check_escaped', set()).add(show(endv)[:40])
         out['check_escaped'] = ws
     b = f.bodies.get("parser::Parser::<'a>::parse_json_string")
     if b is not None:
@@ -731,6 +757,10 @@ def r16_4(ctx, run, rule='R16.4'):
     want = {'Index': [('arg', 'new_display')], 'QuotedName': [('lit', '"'), ('arg', 'new_display'), ('lit', '"')], 'Name': [('arg', 'new_display')]}
     for k, w in want.items():
         ok = got.get(k) is not None and w in got[k] and len(got[k]) == 1
+        if got.get(k) is None:
+            # nothing this rule reads is written for the variant (the printing was moved somewhere it does not follow): not a recognised wrong rendering
+            run.undecided(rule, 'keypath::KeyPath', f'shape[{k}]', f'no write of the Display impl was read for {k} (delegated to a helper or adaptor this rule does not follow): its printed form is not decided')
+            continue
         (run.proved if ok else run.violation)(rule, 'keypath::KeyPath', f'shape[{k}]', ''.join(x[1] if x[0] == 'lit' else '{}' for x in w) if ok else
                                                f'{k} is printed as {got.get(k)}; expected {w} (Display of the name between plain quotes): other formatting does not parse back')
     dt = display_table(ctx, "<keypath::KeyPaths<'a> as std::fmt::Display>::fmt") or {}
